@@ -6,6 +6,8 @@
 //!   `NOEVENT <n>`                   not exactly one event
 //! `D <charset-label|-> <hex body>`: a 200 response with `content-type: text/plain; charset=<label>` (`-`: no charset) consumed with
 //!   `expect_string()`: prints `STR <hex of the string's UTF-8>` / `ERR` / `PANIC`.
+//! `X <bytes|string|json> <status> <hex body>`: a response with that status, `content-type: application/json; charset=utf-8` and a header
+//!   `x-keep: kept` consumed with the named body expectation: prints `<kind> status=<s> keep=<x-keep> body=<hex | json text>` / `ERR <variant>` / `PANIC`.
 //! `all` as the only argument runs every status 0..=65535 with a 1-byte body.
 use std::io::BufRead;
 use std::panic::{catch_unwind, AssertUnwindSafe};
@@ -111,6 +113,70 @@ fn run_decode(label: &str, hex: &str) -> String {
     r.unwrap_or_else(|_| "PANIC".to_string())
 }
 
+fn run_expect(kind: &str, status: u16, hex: &str) -> String {
+    let body: Vec<u8> = (0..hex.len() / 2).map(|i| u8::from_str_radix(&hex[2 * i..2 * i + 2], 16).unwrap_or(0)).collect();
+    let resp = || {
+        let mut b = HttpResponse::status(status);
+        b.body(body.clone());
+        b.header("content-type", "application/json; charset=utf-8");
+        b.header("x-keep", "kept");
+        b.build()
+    };
+    fn hexs(b: &[u8]) -> String {
+        b.iter().map(|x| format!("{x:02x}")).collect()
+    }
+    fn err(e: &HttpError) -> String {
+        match e {
+            HttpError::Http { code, body, .. } => format!("ERR Http {} {}", u16::from(*code), body.as_ref().map(|b| hexs(b)).unwrap_or_else(|| "-".into())),
+            HttpError::Json(_) => "ERR Json".to_string(),
+            HttpError::Io(_) => "ERR Io".to_string(),
+            HttpError::Url(_) => "ERR Url".to_string(),
+            HttpError::Timeout => "ERR Timeout".to_string(),
+        }
+    }
+    let r = catch_unwind(AssertUnwindSafe(|| match kind {
+        "bytes" => {
+            let mut cmd: crux_core::Command<Effect, Event> = Http::get("http://example.com/").build().then_send(Event::Got);
+            let Effect::Http(mut req) = cmd.effects().next().expect("one request");
+            req.resolve(HttpResult::Ok(resp())).expect("resolves");
+            let ev = cmd.events().next();
+            match ev {
+                Some(Event::Got(Ok(mut r))) => format!("bytes status={} keep={} body={}", u16::from(r.status()), r.header("x-keep").map(|v| v.as_str().to_string()).unwrap_or_default(), hexs(&r.take_body().unwrap_or_default())),
+                Some(Event::Got(Err(e))) => err(&e),
+                None => "NOEVENT".to_string(),
+            }
+        }
+        "string" => {
+            let mut cmd: crux_core::Command<Effect, SEvent> = Http::get("http://example.com/").expect_string().build().then_send(SEvent::Got);
+            let Effect::Http(mut req) = cmd.effects().next().expect("one request");
+            req.resolve(HttpResult::Ok(resp())).expect("resolves");
+            let ev = cmd.events().next();
+            match ev {
+                Some(SEvent::Got(Ok(mut r))) => format!("string status={} keep={} body={}", u16::from(r.status()), r.header("x-keep").map(|v| v.as_str().to_string()).unwrap_or_default(), hexs(r.take_body().unwrap_or_default().as_bytes())),
+                Some(SEvent::Got(Err(e))) => err(&e),
+                None => "NOEVENT".to_string(),
+            }
+        }
+        _ => {
+            let mut cmd: crux_core::Command<Effect, JEvent> = Http::get("http://example.com/").expect_json::<Vec<u32>>().build().then_send(JEvent::Got);
+            let Effect::Http(mut req) = cmd.effects().next().expect("one request");
+            req.resolve(HttpResult::Ok(resp())).expect("resolves");
+            let ev = cmd.events().next();
+            match ev {
+                Some(JEvent::Got(Ok(mut r))) => format!("json status={} keep={} body={:?}", u16::from(r.status()), r.header("x-keep").map(|v| v.as_str().to_string()).unwrap_or_default(), r.take_body().unwrap_or_default()),
+                Some(JEvent::Got(Err(e))) => err(&e),
+                None => "NOEVENT".to_string(),
+            }
+        }
+    }));
+    r.unwrap_or_else(|_| "PANIC".to_string())
+}
+
+#[derive(Debug)]
+enum JEvent {
+    Got(Result<Response<Vec<u32>>, HttpError>),
+}
+
 fn main() {
     std::panic::set_hook(Box::new(|_| {}));
     let args: Vec<String> = std::env::args().collect();
@@ -127,6 +193,12 @@ fn main() {
             let mut p = line[2..].split_whitespace();
             let (l, h) = (p.next().unwrap_or("-"), p.next().unwrap_or(""));
             println!("{}", run_decode(l, h));
+            continue;
+        }
+        if line.starts_with("X ") {
+            let mut p = line[2..].split_whitespace();
+            let (k, st, h) = (p.next().unwrap_or("bytes"), p.next().and_then(|x| x.parse::<u16>().ok()).unwrap_or(200), p.next().unwrap_or(""));
+            println!("{}", run_expect(k, st, h));
             continue;
         }
         if line.starts_with("E ") {
